@@ -2316,7 +2316,14 @@ func runC10(run *Run, rng *Rng, tier string) error {
 	// ---- patches entries (targeted / by-name)
 	for i := 0; i < 90*scale; i++ {
 		g := rng.Fork()
-		l := c10GenResList(g, 1+g.Intn(6), true)
+		// regular container shapes only: the strategic merge itself (C04) must not fail on the document
+		l := c10GenResList(g, 1+g.Intn(6), false)
+		if g.Chance(3) { // malformed previous-id annotations: Resource.PrevIds panics
+			l[0].Prev = nil
+			l[0].Annos = append(l[0].Annos, [2]string{"internal.config.kubernetes.io/previousNames", "a,b"},
+				[2]string{"internal.config.kubernetes.io/previousNamespaces", "default"},
+				[2]string{"internal.config.kubernetes.io/previousKinds", l[0].Kind})
+		}
 		c := c10Case{Kind: "patch", Docs: c10Texts(l)}
 		x := l[g.Intn(len(l))]
 		if g.Chance(50) {
